@@ -46,7 +46,14 @@ var retBehaviours = []retBeh{
 	{"return 1 / d.Z", always(false), val(nil), always(true)},
 	{"if true {\n    return 1 / d.Z\n  }", always(false), val(nil), always(true)},
 	{"if d.K == 1 {\n    return 15\n  }\n  x = 1 / d.Z", func(k int64) bool { return k == 1 }, val(int64(15)), func(k int64) bool { return k != 1 }},
+	// a `break` / `continue` outside any loop: whatever the engine makes of it (today: the rule fails),
+	// the rule reached no `return`, so it has no entry. Error nil-ness is not judged for these two.
+	{"x = 1\n  break", always(false), val(nil), always(true)},
+	{"if d.K == 1 {\n    continue\n  }\n  x = 2", always(false), val(nil), func(k int64) bool { return k == 1 }},
 }
+
+// behaviours whose failing is not specified by any statement (only their missing result entry is judged)
+var c11ErrUnjudged = map[int]bool{12: true, 13: true}
 
 type c11Data struct {
 	K int64
@@ -224,7 +231,13 @@ func c11Scenario(cfg c11Cfg) *hx.Scenario {
 			if c := sameResult(st.res1Copy, want1); c != "" {
 				bad("first-call", "result map of the call: "+c)
 			}
-			if fail1 != (st.err1 != nil) && !isMustFail(cfg, model1) {
+			unjudgedErr := false
+			for _, b := range cfg.Beh {
+				if c11ErrUnjudged[b] {
+					unjudgedErr = true
+				}
+			}
+			if fail1 != (st.err1 != nil) && !isMustFail(cfg, model1) && !unjudgedErr {
 				bad("first-call-error", fmt.Sprintf("some executed rule failed = %v but error = %v", fail1, st.err1))
 			}
 			second := cfg.Model2
